@@ -19,13 +19,16 @@ enum ParseObs {
 
 /// parse + produce location + excerpt exactly like main.rs's parse_statement does
 fn observe(text: &str) -> Result<ParseObs, PanicRec> {
-    catch(|| match sqlgrep::parsing::parse(text) {
-        Ok(_) => ParseObs::Ok,
-        Err(e) => {
-            let loc = e.location().clone();
-            let near = loc.extract_near(text);
-            ParseObs::Err { line: loc.line, column: loc.column, msg: format!("{}", e), near }
-        }
+    // parsing must terminate: the case is registered with the process-wide watchdog while it runs
+    watch(&|| json!({"layer": "hang", "text": text}).to_string(), || {
+        catch(|| match sqlgrep::parsing::parse(text) {
+            Ok(_) => ParseObs::Ok,
+            Err(e) => {
+                let loc = e.location().clone();
+                let near = loc.extract_near(text);
+                ParseObs::Err { line: loc.line, column: loc.column, msg: format!("{}", e), near }
+            }
+        })
     })
 }
 
